@@ -26,7 +26,7 @@ def make_stream(rng, tab_len):
         elif r < 0.68 and (depth > 0 or rng.random() < 0.04):
             spec.append(')'); raw.append((rng.choice(['RPAR', 'RSQB']), ')')); depth -= 1
         else:
-            spec.append(['o', 0]); raw.append(('NAME', 'x'))
+            spec.append(['o', 0]); raw.append(('NAME', rng.choice(['x', 'x', 'x', ''])))      # '' : a token with empty text (a str subclass that is falsy)
     return spec, raw
 
 
